@@ -477,7 +477,9 @@ class RaftNode(Entity):
                 "term": self._current_term,
                 "success": True,
                 "from": self.name,
-                "match_index": self._log.last_index,
+                # Only what this request verified is known to match the leader's
+                # log; entries beyond it may be leftovers of an older leader.
+                "match_index": prev_log_index + len(entries),
             },
             daemon=True,
         )
